@@ -7,7 +7,7 @@ use rust_decimal::prelude::*;
 use rust_decimal::Decimal;
 verus! {
 mod m {
-use super::*; use core::result; use vstd::prelude::*; use vstd::string::*; use rust_decimal::Decimal;
+use super::*; use core::result; use vstd::prelude::*; use vstd::string::*; use rust_decimal::Decimal; use std::sync::Arc;
 
 #[verifier::external_type_specification]
 #[verifier::external_body]
